@@ -360,21 +360,11 @@ theorem cross_kind_convert_copies_all {V : Type} {m : LogicalModel} {k₁ k₂ :
 
 /-! ## 5. The full-strength statement fails: concrete witnesses (the model follows the code as it is) -/
 
-/-- two fields declared `b, a` -/
-def mBA : LogicalModel := { fields := [{ name := "b", ty := .str }, { name := "a", ty := .int }] }
 /-- `a: int` (becomes the autoincrement primary key), `b: Optional[int]` (becomes a nullable column) -/
 def mSA : LogicalModel := { fields := [{ name := "a", ty := .int }, { name := "b", ty := .opt .int }] }
 /-- `a: str`, `d: Optional[int] = None` -/
 def mNone : LogicalModel :=
   { fields := [{ name := "a", ty := .str }, { name := "d", ty := .opt .int, default := .value .none }] }
-
-theorem sortByName_mBA :
-    sortByName ((mBA.fields).map (declField .typedDict false))
-      = [{ name := "a", ty := .int }, { name := "b", ty := .str }] := by
-  unfold sortByName
-  simp only [mBA, List.map_cons, List.map_nil, declField, LDflt.isNone]
-  rw [List.mergeSort]
-  simp
 
 /-- TypedDict: the order of the fields is not the order of declaration (observable with `as_list=True`). -/
 theorem full_strength_fails_typedDict_order :
